@@ -136,7 +136,10 @@ def run(tier, seed):
             held[k] = c
         size = cp._cached_css_compile.cache_info().currsize
         mo = lib.Driver().run([f'(lru {maxc} ({" ".join(model_ops)}))'])[0]
-        model = [int(x) for x in mo[0]]
+        if lib.is_err(mo):
+            model, mo = [], [[], -1]
+        else:
+            model = [int(x) for x in mo[0]]
         if model != real or int(mo[1]) != size:
             i = next((i for i, (a, b) in enumerate(zip(model, real)) if a != b), None)
             ck.broken.append(f'correspondence lru_cache vs Cache.v: first difference at call {i} (model {model[i] if i is not None else None}, '
@@ -240,6 +243,9 @@ print(json.dumps(out))
                 warnings.simplefilter('ignore')
                 with contextlib.redirect_stdout(io.StringIO()):
                     c3 = sv.compile(p + ' ', ns3, fl, custom=cu3)
+            if c3.namespaces is None or c3.custom is None:
+                ck.violation('compile() with namespaces and custom maps returned an object without them', {'pattern': p, 'namespaces': repr(ns), 'custom': cu})
+                continue
             h3, n3 = hash(c3), dict(c3.namespaces)
             ns3['zz'] = 'urn:zz'
             cu3[':--zz'] = 'b'
